@@ -71,6 +71,9 @@ def check(c, c0, s0, raw, ops, tag):
     if c.evaluations % 5 == 3:
         from ..gen import Lib, name_mandatory
         src = name_mandatory(src, Lib(), c.rng.fork('nm%d' % c.evaluations), (2, 3))
+    elif c.evaluations % 5 == 1:
+        from ..gen import respell_ints, hoist_literals
+        src = hoist_literals(respell_ints(src, c.rng.fork('rs%d' % c.evaluations)), c.rng.fork('hl%d' % c.evaluations))
     impl, model = progdiff.run_both(c, src)
     # C04 is about the TCP segment (seq/ack/flags/payload): compare from the TCP header on, checksum excluded
     off = 20 if raw else 34
